@@ -151,9 +151,16 @@ LINE_DC_STD = ["95-CU", "c24_dc_g", "c24_dc_bare"]
 T3_STD = ["63/25/38 MVA 110/20/10 kV", "63/25/38 MVA 110/10/10 kV", "c24_t3_shift", "c24_t3_bare"]
 
 
+_EMPTY = None
+
+
 def base_net(g):
     """buses (non-contiguous indices), dc buses and user std types with odd values so that defaults cannot mask a dropped column"""
-    net = pp.create_empty_network(sn_mva=g.C([1., 10., 100.]))
+    global _EMPTY
+    if _EMPTY is None:
+        _EMPTY = pp.create_empty_network()     # building the ~60 empty tables dominates the cost of a case; copies are cheap
+    net = copy.deepcopy(_EMPTY)
+    net.sn_mva = g.C([1., 10., 100.])
     off = g.C([0, 0, 3])
     pp.create_buses(net, len(AC_VN), AC_VN, index=[off + 2 * i if off else i for i in range(len(AC_VN))])
     pp.create_buses_dc(net, 4, [320., 320., 150., 150.])
@@ -489,6 +496,8 @@ def gen_sgen(g, net, n):
         sp.sv(g, "q_mvar", lambda: round(g.R(-3, 8), 3))
     _limits(g, sp, ("max_p_mw", "min_p_mw", "max_q_mvar", "min_q_mvar"))
     _controllable(g, sp)
+    if g.B(0.2):
+        sp.s("type", g.C(["wye", "delta"]))
     if g.B(0.25):
         sp.sv(g, "current_source", lambda: g.B(0.5))
     if g.B(0.3):
@@ -552,7 +561,13 @@ def gen_storage(g, net, n):
 
 def gen_shunt(g, net, n):
     sp = Spec("shunt", n)
-    sp.v("buses", pick(g, buses_of(net), n))
+    # often at the buses whose labels equal the labels the new shunts will get (bus labels and shunt labels overlap in real nets)
+    free = int(net.shunt.index.max()) + 1 if len(net.shunt) else 0
+    lab = [free + j for j in range(n)]
+    if g.B(0.35) and set(lab) <= set(buses_of(net)):
+        sp.v("buses", [lab[j] for j in g.rng.permutation(n)] if g.B(0.7) else pick(g, lab, n))
+    else:
+        sp.v("buses", pick(g, buses_of(net), n))
     sp.sv(g, "q_mvar", lambda: round(g.R(-5, 5), 3))
     if g.B(0.5):
         sp.sv(g, "p_mw", lambda: round(g.R(0, 1), 3))
@@ -818,7 +833,7 @@ def add_scenario(g, net, fam, sp, n_pre):
         if len(net[table]):
             opts.append("dup_index_existing")
         if fam == "switch":
-            opts += ["bad_element", "not_connected"]
+            opts += ["bad_element"] * 3 + ["not_connected"] * 3
         if fam in ("poly_cost", "pwl_cost"):
             opts += ["dup_cost_existing"] * 3 + (["dup_cost_within"] * 2 if sp.n >= 2 else [])
         if not opts:
@@ -892,6 +907,20 @@ def std_of(net, fam, sp, i):
     return net.std_types[STD_KIND[fam]][sp.get("std_type", i)]
 
 
+def shunt_vn_model(net, sp):
+    """create_shunts without vn_kv passes net.bus.vn_kv.loc[buses], a Series labelled by *bus*; _check_entry keeps it as a Series
+    when all its labels occur among the new shunt labels and DataFrame.assign then aligns it by label (shunt_create.py:153-154,
+    _utils.py:335-340).  Returns None (defect not triggered), 'crash' (duplicate bus labels cannot be aligned) or the predicted
+    vn_kv of the created rows."""
+    st, labels = index_model(net, sp, "shunt")
+    buses = [int(b) for b in sp.args["buses"][1]]
+    if "vn_kv" in sp.args or st != "ok" or not set(buses) <= set(labels) or not set(buses) <= set(int(x) for x in net.bus.index):
+        return None
+    if len(set(buses)) < len(buses):
+        return "crash"
+    return [float(net.bus.vn_kv.at[l]) if l in buses else nan for l in labels]
+
+
 def explain_value(fam, net, sp, col, i, a, b):
     """name of the defect whose precise trigger and predicted values match the differing cell (a = batch, b = single), else None"""
     table = FAMILIES[fam][0]
@@ -899,16 +928,25 @@ def explain_value(fam, net, sp, col, i, a, b):
         std = std_of(net, fam, sp, i)
         # create_transformers copies neither shift_degree nor any tap parameter of the std type (trafo_create.py:254-261)
         if col in F12_COLS and col in std and unset(given(sp, col, i)):
-            if same(b, std[col]) and same(a, 0.0 if col == "shift_degree" else None):
+            dropped = same(a, 0.0 if col == "shift_degree" else None) or (col == "tap2_side" and a == "nan" and col in net.trafo.columns)
+            if same(b, std[col]) and dropped:     # ("nan": see unset_text_column_filled_with_nan_string)
                 return "transformers_std_type_shift_and_tap_dropped"
         if col in ("tap_pos", "tap2_pos") and col[:-3] + "neutral" in std and unset(given(sp, col, i)):
             if same(b, std[col[:-3] + "neutral"]) and _isnull(a):
                 return "transformers_std_type_shift_and_tap_dropped"
+    if fam == "shunt" and col == "vn_kv":
+        pred = shunt_vn_model(net, sp)
+        if isinstance(pred, list) and same(a, pred[i]) and same(b, float(net.bus.vn_kv.at[sp.get("buses", i)])):
+            return "shunts_default_vn_kv_aligned_by_label"
     if fam in ("line", "line_dc") and col in ("r0_ohm_per_km", "x0_ohm_per_km", "c0_nf_per_km", "alpha"):
         # create_lines / create_lines_dc copy only r, x, c, max_i, g, type (line_create.py:383-398, 509-520)
         std = std_of(net, fam, sp, i)
         if col in std and unset(given(sp, col, i)) and _isnull(a) and same(b, std[col]):
             return "lines_std_type_optional_params_dropped"
+    if fam == "trafo_fp" and col == "tap2_pos" and unset(given(sp, col, i)) and not unset(given(sp, "tap2_neutral", i)):
+        # the batch function documents "defaults to tap2_neutral" but only the single one does it (trafo_create.py:468-470 vs 677)
+        if _isnull(a) and same(b, sp.get("tap2_neutral", i)):
+            return "transformers_from_parameters_tap2_pos_not_defaulted"
     if fam in ("trafo", "trafo_fp") and col in ("vector_group", "tap2_side") and a == "nan" and _isnull(b):
         # _add_to_entries_if_not_nan(..., dtype=str) on an existing column: Series(nan).astype(str) -> "nan" (_utils.py:271-273)
         if col in net[table].columns and unset(given(sp, col, i)):
@@ -1018,6 +1056,8 @@ def explain_decision(fam, net, sp, scen, sa, ea, sb, eb):
         ets = [sp.get("et", i) for i in range(sp.n)] if fam == "switch" else []
         if fam == "switch" and isinstance(ea, UserWarning) and all(e == "t3" for e in ets):
             return "switches_only_t3_rejected"          # switch_create.py:176-188
+        if fam == "shunt" and isinstance(ea, ValueError) and shunt_vn_model(net, sp) == "crash":
+            return "shunts_default_vn_kv_aligned_by_label"
         if fam == "impedance" and not isinstance(ea, UserWarning) and ("rft0_pu" in sp.args or "gf0_pu" in sp.args):
             return "impedances_zero_sequence_args_crash"    # impedance_create.py:500-509: scalar setter called with the index array
         if isinstance(ea, TypeError) and any(k in sp.args and sp.args[k][0] == "v" for k in TEXT_LIST_ARGS.get(fam, ())):
@@ -1039,6 +1079,50 @@ def compare_rows(fam, table, ra, rb):
             if not eq:
                 diffs.append((c, i, _py(a), _py(b)))
     return diffs, cells, via
+
+
+def spec_tags(net, fam, sp):
+    """what the argument vector exercises (coverage evidence)"""
+    tags, nodes = set(), set(FAMILIES[fam][5]) | {"elements", "index", "points", "geodata"}
+    for k, (kind, x) in sp.args.items():
+        if k in nodes:
+            continue
+        tags.add("scalar_broadcast" if kind == "s" else "vector_arg")
+        if kind == "v" and any(_isnull(e) for e in x) and not all(_isnull(e) for e in x):
+            tags.add("partly_nan_vector")
+    if "index" in sp.args:
+        tags.add("explicit_index")
+    if sp.as_array:
+        tags.add("numpy_vectors")
+    if "c24_user_col" in sp.args:
+        tags.add("kwargs_column")
+    if fam in STD_KIND:
+        names = set(sp.get("std_type", i) for i in range(sp.n))
+        stds = [net.std_types[STD_KIND[fam]][nm] for nm in names]
+        if any(nm.startswith("c24_") for nm in names):
+            tags.add("user_std_type")
+        if any(d.get("shift_degree", 0) or d.get("shift_mv_degree", 0) or d.get("shift_lv_degree", 0) for d in stds):
+            tags.add("std_with_shift")
+        if any("tap_changer_type" in d for d in stds):
+            tags.add("std_with_tap_changer")
+        if any(d.get("tap_step_degree", 0) for d in stds):
+            tags.add("std_with_tap_step_degree")
+        if any("r0_ohm_per_km" in d or "vk0_percent" in d for d in stds):
+            tags.add("std_with_zero_sequence")
+        if len(names) > 1:
+            tags.add("std_type_list")
+    for k in ("tap_pos", "tap2_pos", "parallel", "df", "slack", "slack_weight", "controllable", "max_p_mw", "shift_degree"):
+        if k in sp.args:
+            tags.add("arg:" + k)
+    if any(k.startswith("const_") for k in sp.args):
+        tags.add("arg:zip_percent")
+    if fam in ("poly_cost", "pwl_cost"):
+        if len(net.poly_cost):
+            tags.add("existing_poly_cost")
+        if len(net.pwl_cost):
+            tags.add("existing_pwl_cost")
+        tags.add("cost_et_" + ("scalar" if sp.args["et"][0] == "s" else "list"))
+    return tags
 
 
 def make_case(seed, case_no):
@@ -1075,6 +1159,7 @@ def run_case(seed, tier, case_no):
         return common.case(common.sha([fam, seed]), nontrivial=False, tags=tags, skipped=scen, sample={"pre": sp.describe()})
     if n_pre:
         tags.add("pre_rows")
+    tags |= spec_tags(net, fam, sp)
     n0 = len(net[table])
     A, B = copy.deepcopy(net), copy.deepcopy(net)
     sa, ea, idx_a = run_batch(A, fam, sp)
